@@ -1,5 +1,5 @@
 (* C17 — the client talks only to servers whose host key is trusted.  Statements only. *)
-From DT Require Import Lib.Bytes Lib.Split Model.C18_Discovery Model.C17_KnownHosts Proofs.C17_KnownHosts.
+From DT Require Import Lib.Bytes Lib.Split Model.C18_Discovery Model.C17_KnownHosts Proofs.C17_KnownHosts Proofs.C17_History.
 
 (* The client proceeds with a server iff its key matches the known-hosts file, trust-all was
    requested, or the user's first decisive answer at the prompt is yes / all (details and any
@@ -23,6 +23,30 @@ Print Assumptions C17_rewrite.
 Theorem C17_rewrite_order : forall entries addrs old,
   rewrite entries addrs old = entries ++ filter (keep_line addrs) (file_lines old).
 Proof. exact rewrite_order. Qed.
+
+(* Histories: a retrying client (dtail, tail-mode dmap) contacts its servers again and again through
+   the same callback object.  In every round of every history - whatever was answered, refused or
+   recorded before - a server is proceeded with only if its key matches the known-hosts file at that
+   moment or the answers typed in this very round approve it, as long as trust-all is not in force
+   (not requested and nobody answered "all").  In particular a host the user refused stays out. *)
+Theorem C17_history : forall h st i a cs ds j c,
+  st_trust_all st = false -> Forall (fun r => says_all (fst r) = false) h ->
+  nth_error h i = Some (a, cs) -> nth_error (run st h) i = Some ds ->
+  nth_error cs j = Some c -> nth_error ds j = Some Proceed ->
+  snd c = true \/ approves a = true.
+Proof. exact history_proceed. Qed.
+Print Assumptions C17_history.
+
+(* ... and the record of refused hosts (untrustedHosts) takes no part in any decision. *)
+Theorem C17_history_refused_irrelevant : forall h st l,
+  run st h = run {| st_trust_all := st_trust_all st; st_refused := l |} h.
+Proof. exact history_refused_irrelevant. Qed.
+
+Example C17_history_example :
+  let h := [([B"n"], [(1, false); (2, true)]); ([B"maybe"; B"n"], [(1, false); (2, true)]); ([B"y"], [(1, false)]); ([], [(1, true)])] in
+  Forall (fun r => says_all (fst r) = false) h
+  /\ run {| st_trust_all := false; st_refused := [] |} h = [[Refuse; Proceed]; [Refuse; Proceed]; [Proceed]; [Proceed]].
+Proof. split; [repeat constructor|vm_compute; reflexivity]. Qed.
 
 Example C17_example :
   fst (fst (batch false [B"d"; B"maybe"; B"n"; B"y"])) = Refuse
